@@ -143,6 +143,10 @@ func (h *ProposalHandler) PrepareProposalHandler(ctx sdk.Context, req *abci.Requ
 
 func (h *ProposalHandler) ProcessProposalHandler(ctx sdk.Context, req *abci.RequestProcessProposal) (*abci.ResponseProcessProposal, error) {
 	if req.Height > ctx.ConsensusParams().Abci.VoteExtensionsEnableHeight {
+		if len(req.Txs) == 0 {
+			h.logger.Error("ProcessProposalHandler: rejecting proposal, no injected vote extension tx")
+			return &abci.ResponseProcessProposal{Status: abci.ResponseProcessProposal_REJECT}, nil
+		}
 		var injectedVoteExtTx VoteExtTx
 		if err := json.Unmarshal(req.Txs[0], &injectedVoteExtTx); err != nil {
 			h.logger.Error("ProcessProposalHandler: failed to decode injected vote extension tx", "err", err)
@@ -228,6 +232,16 @@ func (h *ProposalHandler) PreBlocker(ctx sdk.Context, req *abci.RequestFinalizeB
 		if err := json.Unmarshal(req.Txs[0], &injectedVoteExtTx); err != nil {
 			h.logger.Error("PreBlocker: failed to decode injected vote extension tx", "err", err)
 			return nil, errors.New("failed to decode injected vote extension tx")
+		}
+
+		// the lists below are indexed in parallel
+		if len(injectedVoteExtTx.OpAndEVMAddrs.EVMAddresses) != len(injectedVoteExtTx.OpAndEVMAddrs.OperatorAddresses) ||
+			len(injectedVoteExtTx.ValsetSigs.Timestamps) != len(injectedVoteExtTx.ValsetSigs.OperatorAddresses) ||
+			len(injectedVoteExtTx.ValsetSigs.Signatures) != len(injectedVoteExtTx.ValsetSigs.OperatorAddresses) ||
+			len(injectedVoteExtTx.OracleAttestations.Snapshots) != len(injectedVoteExtTx.OracleAttestations.OperatorAddresses) ||
+			len(injectedVoteExtTx.OracleAttestations.Attestations) != len(injectedVoteExtTx.OracleAttestations.OperatorAddresses) {
+			h.logger.Error("PreBlocker: injected vote extension tx has lists of different lengths")
+			return nil, errors.New("injected vote extension tx has lists of different lengths")
 		}
 
 		if len(injectedVoteExtTx.OpAndEVMAddrs.OperatorAddresses) > 0 {
